@@ -96,6 +96,13 @@ func dropFinalizers(s *simkube.Store, k simkube.ObjKey, keep func(string) bool) 
 const claimFinalizer = "finalizer.apiextensions.crossplane.io"
 
 func h1(r *explore.Run, rep *report.R, sc string, depth int, foreground bool, ssa bool) {
+	h1v(r, rep, sc, depth, foreground, ssa, false)
+}
+
+// h1v: with olderVersionRef the claim was bound while the XRD's referenceable
+// version was an older one: the XR's claimRef records that apiVersion, the
+// claim is now served (and references itself) at the newer one.
+func h1v(r *explore.Run, rep *report.R, sc string, depth int, foreground bool, ssa bool, olderVersionRef bool) {
 	xrh.BeginExecution(1)
 	s := xrh.NewStore()
 	xrd := xrh.XRD()
@@ -126,6 +133,11 @@ func h1(r *explore.Run, rep *report.R, sc string, depth int, foreground bool, ss
 		panic(explore.HarnessError{Msg: "H1 preparation: claim not bound"})
 	}
 	xrKey := simkube.KeyOf(xrs[0])
+	if olderVersionRef {
+		s.Mutate(xrKey, func(u *unstructured.Unstructured) {
+			_ = unstructured.SetNestedField(u.Object, xrh.ClaimGVK.Group+"/v1alpha1", "spec", "claimRef", "apiVersion")
+		})
+	}
 	// A dependent of the XR that blocks foreground deletion until collected.
 	dep := &unstructured.Unstructured{}
 	dep.SetGroupVersionKind(xrh.ResA)
@@ -357,7 +369,7 @@ func h2(r *explore.Run, rep *report.R, sc string, depth int, foreignCRD bool, st
 			xrh.Reconcile(xrec, types.NamespacedName{Name: x.GetName()})
 		}
 	}
-	eng.OnStop = func(name string) {
+	onStop := func(name string) {
 		for crdName, cn := range ctrlOf {
 			if cn != name {
 				continue
@@ -374,6 +386,7 @@ func h2(r *explore.Run, rep *report.R, sc string, depth int, foreignCRD bool, st
 			}
 		}
 	}
+	eng.OnStop = onStop
 	s.OnWrite = append(s.OnWrite, func(rec *simkube.WriteRecord) {
 		if rec.Call.Key != xrdKey {
 			return
@@ -406,7 +419,7 @@ func h2(r *explore.Run, rep *report.R, sc string, depth int, foreignCRD bool, st
 	s.Inj = inj
 	// An informer lookup of the engine (starting or stopping a watch) may
 	// fail, like an API call: one more kind of costed deviation.
-	eng.Cache.Fail = func(gvk schema.GroupVersionKind) bool {
+	failLookup := func(gvk schema.GroupVersionKind) bool {
 		if !inj.Armed {
 			return false
 		}
@@ -416,7 +429,20 @@ func h2(r *explore.Run, rep *report.R, sc string, depth int, foreignCRD bool, st
 		}
 		return false
 	}
-	events := []string{"definition-reconcile", "offered-reconcile", "xr-reconcile", "claim-reconcile", "user-deletes-xrd", "user-deletes-claim", "gc-step", "crd-cleanup", "third-party-deletes-composite-crd"}
+	eng.Cache.Fail = failLookup
+	// restart: the Crossplane pod is replaced. Which controllers run is
+	// in-memory state of the engine: the new process starts with none, and
+	// with fresh reconcilers.
+	restart := func() {
+		eng.Shutdown()
+		ne := &h2Engine{Engine: engh.New(xrh.Scheme, c, c)}
+		ne.Sync, ne.OnStop, ne.Cache.Fail = report.Settle, onStop, failLookup
+		*eng = *ne
+		h2Cleanup = eng.Shutdown
+		drec = definition.NewReconciler(ca, definition.WithControllerEngine(eng), definition.WithOptions(o))
+		orec = offered.NewReconciler(ca, offered.WithControllerEngine(eng), offered.WithOptions(o))
+	}
+	events := []string{"definition-reconcile", "offered-reconcile", "xr-reconcile", "claim-reconcile", "user-deletes-xrd", "user-deletes-claim", "gc-step", "crd-cleanup", "third-party-deletes-composite-crd", "crossplane-restarts"}
 	var trail []string
 	for step := 0; step < depth; step++ {
 		r.SeenRank(report.Hash(s.Canonical(), eng.state(ctrlNames...), s.NoMatch), depth-step)
@@ -448,6 +474,8 @@ func h2(r *explore.Run, rep *report.R, sc string, depth int, foreignCRD bool, st
 			_ = s.Client("user").Delete(ctxBG, xrd.DeepCopy())
 		case "crd-cleanup":
 			crdCleanup()
+		case "crossplane-restarts":
+			restart()
 		case "third-party-deletes-composite-crd":
 			if crd := s.Peek(simkube.ObjKey{Group: crdGK.Group, Kind: crdGK.Kind, Name: xrCRDName}); crd != nil {
 				_ = s.Client("user").Delete(ctxBG, crd)
@@ -626,7 +654,7 @@ var _ = reference.Claim{}
 func TestCheck(t *testing.T) {
 	rep := report.New("C08", "model_checking")
 	rep.Meta(
-		"Four closed sub-systems, each searched by depth-bounded DFS with state-hash pruning over event sequences; every event is a transition executed by the real code. H1 (claim + XR + a dependent with a provider finalizer; Background and Foreground policy; both syncers): events {claim reconcile with an API fault or crash at any call, XR reconcile, user deletes the claim, user deletes the XR, one garbage-collector step (which one is a choice), the provider finalizes the dependent}. H2 (XRD with the real definition and offered reconcilers on the real ControllerEngine - over harness informers and controllers whose context tells whether they were stopped; an informer lookup of the engine may fail like an API call -, one bound claim + XR whose controllers only run while the engine says so; composite CRD ours or foreign): events {definition / offered reconcile with a fault at any call, XR / claim reconcile, user deletes the XRD / the claim, a third party deletes the composite CRD, gc step, crd-cleanup}; the API-server side establishes CRDs, and a CRD whose deletion was requested carries the customresourcecleanup finalizer and stays terminating until the crd-cleanup event (the API server's CRD finalizer: delete the instances, release the CRD once none is left) has seen every instance go; start states: steady, XRD deletion already requested and reconciled once, composite CRD deleted by a third party. H3 (package revision + dependency Lock, real revision reconciler and PackageDependencyManager): {reconcile with an API error at any call, user deletes the revision, deactivate, gc step}. H4 (composed Usage + using + used resource, real usage reconciler): {reconcile with fault/crash, delete usage / using / used, gc step}. Monitors at every write: claim finalizer removed only after an XR delete was issued (Foreground: XR gone); CRD deleted only with no instances and a stopped controller; controller stopped only with no instances (when the CRD is ours); XRD finalizers removed only when the CRD is gone or never ours; revision finalized only when out of the Lock; composed Usage finalized only when the using resource is gone.",
+		"Four closed sub-systems, each searched by depth-bounded DFS with state-hash pruning over event sequences; every event is a transition executed by the real code. H1 (claim + XR + a dependent with a provider finalizer; Background and Foreground policy; both syncers; variant: the XR's claimRef still records an older API version of the claim): events {claim reconcile with an API fault or crash at any call, XR reconcile, user deletes the claim, user deletes the XR, one garbage-collector step (which one is a choice), the provider finalizes the dependent}. H2 (XRD with the real definition and offered reconcilers on the real ControllerEngine - over harness informers and controllers whose context tells whether they were stopped; an informer lookup of the engine may fail like an API call -, one bound claim + XR whose controllers only run while the engine says so; composite CRD ours or foreign): events {definition / offered reconcile with a fault at any call, XR / claim reconcile, user deletes the XRD / the claim, a third party deletes the composite CRD, gc step, crd-cleanup, Crossplane restarts (new engine with no controller running, new reconcilers)}; the API-server side establishes CRDs, and a CRD whose deletion was requested carries the customresourcecleanup finalizer and stays terminating until the crd-cleanup event (the API server's CRD finalizer: delete the instances, release the CRD once none is left) has seen every instance go; start states: steady, XRD deletion already requested and reconciled once, composite CRD deleted by a third party. H3 (package revision + dependency Lock, real revision reconciler and PackageDependencyManager): {reconcile with an API error at any call, user deletes the revision, deactivate, gc step}. H4 (composed Usage + using + used resource, real usage reconciler): {reconcile with fault/crash, delete usage / using / used, gc step}. Monitors at every write: claim finalizer removed only after an XR delete was issued (Foreground: XR gone); CRD deleted only with no instances and a stopped controller; controller stopped only with no instances (when the CRD is ours); XRD finalizers removed only when the CRD is gone or never ours; revision finalized only when out of the Lock; composed Usage finalized only when the using resource is gone.",
 		[]string{"simkube models the API server; the Kubernetes garbage collector acts only through explicit gc-step events", "a dynamic controller reconciles its instances only while the (recording) engine reports it running", "reconciles are atomic events except for the one injected fault / crash"},
 		[]string{"simkube", "real ControllerEngine over fake informers / controllers (package engh)"},
 	)
@@ -646,6 +674,11 @@ func TestCheck(t *testing.T) {
 			name := fmt.Sprintf("H1/foreground=%v/ssa=%v", fg, ssa)
 			add(name, func(r *explore.Run) { h1(r, rep, name, depth, fg, ssa) })
 		}
+	}
+	for _, fg := range []bool{false, true} {
+		fg := fg
+		name := fmt.Sprintf("H1/foreground=%v/ssa=false/claimref-at-older-version", fg)
+		add(name, func(r *explore.Run) { h1v(r, rep, name, depth, fg, false, true) })
 	}
 	for _, foreign := range []bool{false, true} {
 		foreign := foreign
